@@ -61,6 +61,13 @@ impl<E: Edge, N: InnerNode<E>> DiagramRules<E, N, ZBDDTerminal> for ZBDDRules {
     fn cofactors(_tag: E::Tag, node: &N) -> Self::Cofactors<'_> {
         node.children()
     }
+
+    #[inline(always)]
+    fn skipped_cofactor_terminal(n: usize) -> Option<ZBDDTerminal> {
+        // A set family that does not mention a variable has no member
+        // containing it.
+        if n == HI { Some(ZBDDTerminal::Empty) } else { None }
+    }
 }
 
 #[inline(always)]
